@@ -39,6 +39,7 @@ PER_ASSUMPTIONS = [
 PROPS = {
     'C11': {
         'verus': [U_BITS],
+        'search_groups': ['bits'],
         'assumptions': [
             'pre-condition of *_with_offset variants: the offset lies inside the slice (offset <= 8*len); callers in the repository are proved to respect it',
             'pre-condition of all multi-bit operations: offsets and lengths <= usize::MAX/2 (no wrap of position arithmetic)',
@@ -56,6 +57,7 @@ PROPS = {
     },
     'C10': {
         'verus': [U_PER, U_BITS_DEP],
+        'search_groups': ['per', 'bits'],
         'kani_thorough': [('per_cwn', 900, True), ('per_nnbi_constrained', 900, True), ('per_semi', 900, True), ('per_nsnnwn', 900, True),
                           ('per_uwn', 900, True), ('per_2c', 900, True), ('per_length_determinant', 1200, True), ('per_index', 900, True)],
         'assumptions': PER_ASSUMPTIONS + [
@@ -71,6 +73,7 @@ PROPS = {
     },
     'C06': {
         'verus': [U_PER, U_BITS_DEP],
+        'search_groups': ['per', 'charset'],
         'kani_quick': [('charset_is_valid', 120, True)],
         'assumptions': PER_ASSUMPTIONS + ['UperWriter::write_extensible_bit_and_length_or_err and the restricted-string writers (chars() loops) are covered at the PackedWrite level only in this check'],
         'trusted_base': COMMON_TRUSTED + PER_TRUSTED + KANI_TRUSTED,
@@ -80,6 +83,8 @@ PROPS = {
     },
     'C03': {
         'verus': [U_SCOPE, U_PER_DEP, U_BITS_DEP],
+        'search_groups': ['seq'],
+        'bounded_search': [('seq', 'all SEQUENCE shapes with n <= 4 components x kinds {mandatory, OPTIONAL, DEFAULT} x marker position x all presence patterns through the real Writer/Reader API against an X.691 reference encoding; cross-version pairs with up to 5 components')],
         'assumptions': [
             'generated write_seq/read_seq call the presence protocol exactly once per component, in declaration order, and write/read the component payload in between (text emission of walker.rs; modelled by append_payload / consume_payload: arbitrary appends / cursor advances)',
             'the constants STD_OPTIONAL_FIELDS / FIELD_COUNT / EXTENDED_AFTER_FIELD of the generated code describe the shape (shape_ok, wscope_root / rscope_root)',
@@ -96,6 +101,8 @@ PROPS = {
     },
     'C05': {
         'verus': [U_SCOPE, U_PER_DEP, U_BITS_DEP],
+        'search_groups': ['seq'],
+        'bounded_search': [('seq', 'all SEQUENCE shapes with n <= 4 components x kinds {mandatory, OPTIONAL, DEFAULT} x marker position x all presence patterns through the real Writer/Reader API against an X.691 reference encoding; cross-version pairs with up to 5 components')],
         'assumptions': [
             'same modelling assumptions as C03 (generated glue calls the protocol once per component)',
             'direction V2 -> V1 with unknown additions PRESENT is a recorded known finding (KF-C05-unknown-additions): the lemma covers transmitted counts above the local count for the known additions and the bitmap skip, not the skipping of the unknown open types',
@@ -163,5 +170,6 @@ PROPS = {
 SEARCH_GROUPS = [
     (r'bit_string_copy|slice\.rs|buffer\.rs', 'bits'),
 ]
-KANI_GROUP = {}
+KANI_GROUP = {'charset_is_valid': 'charset', 'per_cwn': 'per', 'per_nnbi_constrained': 'per', 'per_semi': 'per', 'per_nsnnwn': 'per', 'per_uwn': 'per', 'per_2c': 'per',
+              'per_length_determinant': 'per', 'per_index': 'per'}
 BOUNDS = {}
